@@ -35,7 +35,7 @@ def run(ctx):
     build("vpool")
     if ctx.replay:
         out = ctx.path("res.json")
-        run_harness(ctx, "vpool", ["c17", "--replay", ctx.replay, "--out", out])
+        run_harness(ctx, "vpool", ["c17", "--replay", os.path.abspath(ctx.replay), "--out", out])
         res = json.load(open(out))
         for v in res["violations"]:
             report_violation(ctx, v)
